@@ -1801,6 +1801,9 @@ impl SocketAddress for unix::net::SocketAddr {
             }
         }
 
+        // For path names the length returned by the kernel includes the
+        // terminating nul byte, which is not part of the path.
+        let path = path.split(|b| *b == 0).next().unwrap_or(path);
         unix::net::SocketAddr::from_pathname(Path::new(OsStr::from_bytes(path)))
             // Fallback to an unnamed address.
             // SAFETY: unnamed (zero length) address is valid.
